@@ -14,6 +14,7 @@ CONSTANTS
   Defects <- AllDefects
   MaxRm = 1
   QueryOn = FALSE
+  NodeRig = FALSE
   SubW = 1
   MaxOps = 0
   EmitOn = FALSE
